@@ -769,13 +769,13 @@ def run(rep, program: Program, tier: str) -> None:
     )
     rep.assumptions = ["invariance itself (sum over all random outcomes with exact probabilities) is not decided", "the integrator is reversible and volume preserving (C02/C03)"]
     et = ExcTypes(program)
-    rule_r1(rep, program, et)
-    rule_r1b(rep, program)
-    rule_r2_r8(rep, program)
-    rule_r3_r10(rep, program)
-    rule_r4(rep, program)
-    rule_r5(rep, program)
-    rule_r6(rep, program)
-    rule_r7(rep, program)
-    rule_r9(rep, program)
-    rule_r11(rep, program)
+    rep.isolate(rule_r1, rep, program, et)
+    rep.isolate(rule_r1b, rep, program)
+    rep.isolate(rule_r2_r8, rep, program)
+    rep.isolate(rule_r3_r10, rep, program)
+    rep.isolate(rule_r4, rep, program)
+    rep.isolate(rule_r5, rep, program)
+    rep.isolate(rule_r6, rep, program)
+    rep.isolate(rule_r7, rep, program)
+    rep.isolate(rule_r9, rep, program)
+    rep.isolate(rule_r11, rep, program)
